@@ -1442,6 +1442,8 @@ class Model:
                 return ClassRef(x.cls)
             if x is None or type(x) in (int, float, str, bool, bytes, list, tuple, dict, set, frozenset, complex):
                 return ExtRef('builtins.' + type(x).__name__)  # the class of a plain Python value
+            if not isinstance(x, SVar | Opaque | BoundModel | ExtRef | FuncRef | ClassRef | Lambda | GenResult | Unit):
+                return type(x)  # an object handed in by a check (a stand-in for a model, a file): its own class
             return Opaque('type(...)')
         if name == 'super':
             return Opaque('super()')
